@@ -8,11 +8,13 @@ package main
 // original seal (same block hash as the original).
 
 import (
+	"fmt"
 	"math/big"
 	"strings"
 
 	"github.com/dominant-strategies/go-quai/common"
 	"github.com/dominant-strategies/go-quai/core/types"
+	"github.com/dominant-strategies/go-quai/params"
 	"github.com/dominant-strategies/go-quai/trie"
 	"verifharness/hlib"
 )
@@ -25,6 +27,19 @@ type mutant struct {
 	// re-derived root, so the mutant is simply a different candidate block; if accepted
 	// it must have a different hash and commit to the same results).
 	mayAccept bool
+	// reroot (third strengthening round): the mutated body violates a protocol RULE of the inbound ETX
+	// section (order, identity, minimum inclusion), not a commitment. The adversarial miner's version of it
+	// declares everything the real Process recomputes from the mutated body (rerootAll): if Process does not
+	// refuse the body by itself, nothing else will, and the mutant is offered with all roots re-derived.
+	reroot bool
+	Class  string // stable class used in monitor signatures (default: Name)
+}
+
+func (m *mutant) sigName() string {
+	if m.Class != "" {
+		return m.Class
+	}
+	return m.Name
 }
 
 func seal(wo *types.WorkObject) { wo.WorkObjectHeader().SetHeaderHash(wo.Header().Hash()) }
@@ -256,6 +271,56 @@ func buildMutants(b *types.WorkObject, r *hlib.Rng, foreign *types.Transaction, 
 		l = append(l, txs[nEtx:]...)
 		lms = append(lms, listMut{"etx-add-unqueued", l})
 	}
+	// truncations of the inbound ETX section: the block keeps only the first k of the n queued ETXs the
+	// worker included (k = 0 .. n-1; all of them for n <= 6), with the rest of the transactions or without:
+	// the queue is still non-empty after the block's pops and, because the worker stops adding ETXs as soon
+	// as the minimum is reached, every proper prefix is below the minimum-inclusion rule
+	var keeps []listMut
+	if nEtx > 0 {
+		ks := []int{}
+		if nEtx <= 6 {
+			for k := 0; k < nEtx; k++ {
+				ks = append(ks, k)
+			}
+		} else {
+			ks = []int{0, 1, 2, nEtx / 2, nEtx - 2, nEtx - 1}
+		}
+		for _, k := range ks {
+			l := append(types.Transactions{}, txs[:k]...)
+			keeps = append(keeps, listMut{fmt.Sprintf("etx-only-%d", k), l})
+			if nEtx < len(txs) {
+				keeps = append(keeps, listMut{fmt.Sprintf("etx-keep-%d", k), append(append(types.Transactions{}, l...), txs[nEtx:]...)})
+			}
+		}
+	}
+	for _, lm := range keeps {
+		m := types.CopyWorkObject(b)
+		m.Body().SetTransactions(lm.txs)
+		m.Header().SetTxHash(txRoot(lm.txs))
+		add("body/"+lm.name+"/+root", m, false, false)
+		out[len(out)-1].Class = "body/etx-keep-prefix/+root"
+	}
+	for _, lm := range append(append([]listMut{}, keeps...), lms...) {
+		if !strings.HasPrefix(lm.name, "etx-") {
+			continue
+		}
+		m := types.CopyWorkObject(b)
+		m.Body().SetTransactions(lm.txs)
+		m.Header().SetTxHash(txRoot(lm.txs))
+		// start-up regime: the rule counts ETXs and the worker includes one more than the minimum, so a prefix
+		// of MinEtxCount or more is simply another valid block
+		var kk int
+		legit := false
+		if n, _ := fmt.Sscanf(strings.TrimPrefix(strings.TrimPrefix(lm.name, "etx-keep-"), "etx-only-"), "%d", &kk); n == 1 && strings.Contains(lm.name, "-") &&
+			(strings.HasPrefix(lm.name, "etx-keep-") || strings.HasPrefix(lm.name, "etx-only-")) {
+			legit = b.NumberU64(common.ZONE_CTX) <= params.TimeToStartTx && kk >= params.MinEtxCount
+		}
+		add("body/"+lm.name+"/all-roots", m, false, legit)
+		out[len(out)-1].reroot = true
+		if strings.HasPrefix(lm.name, "etx-keep-") || strings.HasPrefix(lm.name, "etx-only-") {
+			out[len(out)-1].Class = "body/etx-keep-prefix/all-roots"
+		}
+	}
 	for _, lm := range lms {
 		m := types.CopyWorkObject(b)
 		m.Body().SetTransactions(lm.txs)
@@ -305,4 +370,54 @@ func buildMutants(b *types.WorkObject, r *hlib.Rng, foreign *types.Transaction, 
 		add("body/uncle-add/+root", m, false, false)
 	}
 	return out
+}
+
+// rerootAll turns wo (a block with a mutated body) into the block an adversarial miner would publish: every
+// commitment is set to what the real Process recomputes from the body (fees first, read from the fee
+// comparison errors, then everything ValidateState compares, and the body's outbound list := the emitted
+// ETXs). ok=false when Process refuses the body itself (why = class of the error): then no choice of the
+// declared values can make the block acceptable.
+func rerootAll(n *node, wo *types.WorkObject) (ok bool, why string) {
+	defer func() {
+		if p := recover(); p != nil {
+			ok, why = false, "panic"
+		}
+	}()
+	for it := 0; it < 4; it++ {
+		seal(wo)
+		batch := n.db.NewBatch()
+		receipts, etxs, _, statedb, usedGas, usedState, _, multiSet, _, err := n.z.Processor().Process(wo, batch)
+		batch.Reset()
+		if err != nil {
+			cl := classState(err)
+			if cl == vAvg || cl == vTotal {
+				m := localRe.FindStringSubmatch(err.Error())
+				if m == nil {
+					return false, "fee-unparsed"
+				}
+				v, _ := new(big.Int).SetString(m[1], 10)
+				if cl == vAvg {
+					wo.Header().SetAvgTxFees(v)
+				} else {
+					wo.Header().SetTotalFees(v)
+				}
+				continue
+			}
+			return false, execClass(err)
+		}
+		h := wo.Header()
+		emitted := types.Transactions(etxs)
+		wo.Body().SetOutboundEtxs(emitted)
+		h.SetOutboundEtxHash(types.DeriveSha(emitted, trie.NewStackTrie(nil)))
+		h.SetReceiptHash(types.DeriveSha(receipts, trie.NewStackTrie(nil)))
+		h.SetEVMRoot(statedb.IntermediateRoot(true))
+		h.SetQuaiStateSize(statedb.GetQuaiTrieSize())
+		h.SetUTXORoot(multiSet.Hash())
+		h.SetEtxSetRoot(statedb.ETXRoot())
+		h.SetGasUsed(usedGas)
+		h.SetStateUsed(usedState)
+		seal(wo)
+		return true, ""
+	}
+	return false, "fee-loop"
 }
